@@ -1,7 +1,7 @@
 #!/bin/bash
 # runs the repository's test suite (guard off) and checks that every test of BASELINE.json's stable_pass still passes
 source /verif/env.sh
-cd /repo && go test -json -vet=off -count=1 -timeout 25m ./... 2>/dev/null | python3 -c "
+cd ${REPO:-/repo} && go test -json -vet=off -count=1 -timeout 25m ./... 2>/dev/null | python3 -c "
 import sys,json
 ok=set()
 for l in sys.stdin:
